@@ -216,15 +216,18 @@ impl Expression {
                     | TypeLayer::Object(ObjectType::RWTexture3D(ty)) => ty,
                     TypeLayer::Object(ObjectType::Texture2DMips(ty)) => {
                         let tyl = TypeLayer::Object(ObjectType::Texture2DMipsSlice(ty));
-                        module.type_registry.register_type(tyl)
+                        let slice_ty = module.type_registry.register_type(tyl);
+                        module.type_registry.make_const(slice_ty)
                     }
                     TypeLayer::Object(ObjectType::Texture2DArrayMips(ty)) => {
                         let tyl = TypeLayer::Object(ObjectType::Texture2DArrayMipsSlice(ty));
-                        module.type_registry.register_type(tyl)
+                        let slice_ty = module.type_registry.register_type(tyl);
+                        module.type_registry.make_const(slice_ty)
                     }
                     TypeLayer::Object(ObjectType::Texture3DMips(ty)) => {
                         let tyl = TypeLayer::Object(ObjectType::Texture3DMipsSlice(ty));
-                        module.type_registry.register_type(tyl)
+                        let slice_ty = module.type_registry.register_type(tyl);
+                        module.type_registry.make_const(slice_ty)
                     }
                     _ => return Err(EvaluateTypeError::InvalidModule),
                 };
@@ -253,6 +256,7 @@ impl Expression {
                     let mips_oty = ObjectType::Texture2DMips(inner);
                     let mips_tyl = TypeLayer::Object(mips_oty);
                     let mips_ty = module.type_registry.register_type(mips_tyl);
+                    let mips_ty = module.type_registry.make_const(mips_ty);
                     return Ok(mips_ty.to_lvalue());
                 }
 
@@ -263,6 +267,7 @@ impl Expression {
                     let mips_oty = ObjectType::Texture2DArrayMips(inner);
                     let mips_tyl = TypeLayer::Object(mips_oty);
                     let mips_ty = module.type_registry.register_type(mips_tyl);
+                    let mips_ty = module.type_registry.make_const(mips_ty);
                     return Ok(mips_ty.to_lvalue());
                 }
 
@@ -273,6 +278,7 @@ impl Expression {
                     let mips_oty = ObjectType::Texture3DMips(inner);
                     let mips_tyl = TypeLayer::Object(mips_oty);
                     let mips_ty = module.type_registry.register_type(mips_tyl);
+                    let mips_ty = module.type_registry.make_const(mips_ty);
                     return Ok(mips_ty.to_lvalue());
                 }
 
